@@ -189,4 +189,25 @@ def run(prop, tier, seed, replay):
         if any(abs(mp.mpf(float(mv[j])) - [sx, sy, sz][j] / nrm) > 6e-8 for j in range(3)):
             ck.add_violation("mean direction differs from the normalised (weighted) vector sum by more than 6e-8",
                              {"ra": rr.tolist(), "dec": dd_.tolist(), "w": None if w is None else w.tolist()})
+    # ---- stratum: input RA outside [0, 2 pi) (other conventions), one point and several: the mean's RA is in range
+    for k in (1, 1, 1, 2, 5):
+        for shift in (-2 * np.pi, 2 * np.pi, -np.pi):
+            base = rng.uniform(0.2, 6.0)
+            rr = base + nprng.uniform(-1e-3, 1e-3, k) + shift
+            dd_ = nprng.uniform(-1.0, 1.0, k) * 0.5
+            pts = AngularCoordinates(np.column_stack([rr, dd_]))
+            w = nprng.uniform(0.5, 2, k) if rng.random() < 0.5 else None
+            mean = attempt(lambda: pts.mean(w), "mean", {"ra": rr.tolist(), "dec": dd_.tolist()})
+            if mean is None:
+                continue
+            ck.case(None, ("mean-range", k, float(shift)))
+            mra = float(np.atleast_1d(mean.ra)[0])
+            if not (0.0 <= mra < 2 * np.pi):
+                ck.add_violation(f"mean of {k} point(s) with right ascension {rr.tolist()} has RA {mra} outside [0, 2 pi)",
+                                 {"ra": rr.tolist(), "dec": dd_.tolist()})
+            else:
+                want = float(np.mean(rr) % (2 * np.pi)) if k == 1 else None
+                if want is not None and abs(mra - want) > 1e-7:
+                    ck.add_violation(f"mean of the single point RA={rr[0]} is RA={mra}, expected {want}",
+                                     {"ra": rr.tolist(), "dec": dd_.tolist()})
     return ck.finish()
